@@ -331,9 +331,9 @@ Section Limits.
       + stsimpl. eapply ext_ok_trans; [exact X02|]. exists [retag E r']. split; auto.
   Qed.
 
-  Lemma set_entry_length attr st e fl : length (set_entry attr st e fl) = length fl.
+  Lemma set_entry_length attr st e fl : length (set_entry E attr st e fl) = length fl.
   Proof. destruct e; cbn; [apply set_nth_length|apply map2_keep_length]. Qed.
-  Lemma set_flags_length attr st o fl : length (set_flags attr st o fl) = length fl.
+  Lemma set_flags_length attr st o fl : length (set_flags E attr st o fl) = length fl.
   Proof.
     destruct o as [[| |l]|]; cbn; auto; try apply map_length.
     revert fl; induction l as [|e l IH]; intros fl; cbn; auto. rewrite IH. apply set_entry_length.
